@@ -7,6 +7,7 @@ addressed to the proxy, and every byte / request the origin saw.  `urllib3.util.
 is redirected to the listener so that arbitrary host names and ports can be requested without DNS."""
 from __future__ import annotations
 
+import hashlib
 import os
 import shutil
 import socket
@@ -335,7 +336,7 @@ class Listener(threading.Thread):
             if r is None:
                 continue
             req, buf = r
-            e["origin_requests"].append({"method": req.method.decode("latin-1"), "target": req.target.decode("latin-1"), "headers": [(k.decode("latin-1"), v.decode("latin-1")) for k, v in req.headers]})
+            e["origin_requests"].append({"method": req.method.decode("latin-1"), "target": req.target.decode("latin-1"), "headers": [(k.decode("latin-1"), v.decode("latin-1")) for k, v in req.headers], "body_len": len(req.body), "body_sha256": hashlib.sha256(bytes(req.body)).hexdigest()})
             served += 1
             closing = cfg.get("close_after") is not None and served >= cfg["close_after"]
             loc = redirect_for(cfg, req.target.decode("latin-1"))
